@@ -93,6 +93,14 @@ BUILT = {
             'Reference bytes from mc/refasm.py; known finding F24b (list starting with a character literal) attributed only when the '
             'observed image equals the defect-mode prediction.',
             'DESIGN.md 3/C11'),
+    'C17': ('model_checking',
+            'exhaustive enumeration of programs x all block cuts into included files, reference include model + differential runs',
+            'Every program of up to 4 (thorough 5) units over a 13-unit alphabet is split in every way (one contiguous block, and a '
+            'nested sub-block) into included files and assembled; outcome must equal the reference include semantics, and for '
+            'scope/zone-neutral blocks the image of the split program must equal the image of the unsplit program (both real '
+            'executions). A placement product covers missing / ambiguous / repeated / self includes and duplicated directories.',
+            'Reference model mc/refasm.py; conditional chains are never split across files.',
+            'DESIGN.md 3/C17'),
 }
 
 NOT_BUILT_REASON = 'check not built yet (work in progress in this session); no claim made'
